@@ -108,6 +108,29 @@ def evaluate(case, native):
         return None, 'no native result'
     if 'panic' in native:
         return True, 'the real code panicked: ' + native['panic'][-300:]
+    if kind == 'goal_order':
+        import struct
+        order = native['order']
+        fit = [[struct.unpack('<d', struct.pack('<Q', int(x)))[0] for x in layer] for layer in case['fitness']]
+        n = len(order)
+        for a in range(n):
+            if order[a][a] != 0:
+                return True, f'cmp(s{a},s{a}) = {order[a][a]} (not reflexive); fitness {fit}'
+            for b in range(n):
+                if order[a][b] != -order[b][a]:
+                    return True, f'cmp(s{a},s{b}) = {order[a][b]} but cmp(s{b},s{a}) = {order[b][a]} (not antisymmetric); fitness {fit}'
+                if all(x == x for layer in fit for x in layer):
+                    ref = 0
+                    for layer in fit:
+                        if layer[a] < layer[b]:
+                            ref = -1
+                            break
+                        if layer[a] > layer[b]:
+                            ref = 1
+                            break
+                    if order[a][b] != ref:
+                        return True, f'cmp(s{a},s{b}) = {order[a][b]} but the lexicographic order of the fitness vectors is {ref}; fitness {fit}'
+        return False, 'real comparison obeys the order laws on this case'
     jobs = case.get('jobs', [])
     if kind == 'sched_state_stats':
         arr, dep, feasible, td, tdur, _ = simulate(case, jobs)
@@ -168,6 +191,15 @@ def evaluate(case, native):
         if accepted and peak1 > cap:
             return True, f'capacity gate accepted an insertion after which the load peaks at {peak1} > capacity {cap}'
         return False, 'capacity decision is sound on this case'
+    if kind == 'reachable':
+        dist = lambda a, b: lookup(case.get('dist'), case.get('dist_default'), a, b)
+        nodes = [case['l0']] + [j['loc'] for j in jobs] + ([case.get('lend', 0)] if case.get('closed', True) else [])
+        legs = [dist(nodes[leg], target['loc'])] + ([dist(target['loc'], nodes[leg + 1])] if leg + 1 < len(nodes) else [])
+        accepted = native['evaluate_reachable'] is None
+        reachable = all(l >= 0 for l in legs)
+        if accepted != reachable:
+            return True, f'reachability gate accepted={accepted} but the new legs have distances {legs} (negative = unreachable)'
+        return False, 'reachability decision agrees with the matrix'
     if kind == 'limits':
         _, _, _, td1, tdur1, _ = simulate(case, post)
         accepted = native['evaluate_limits'] is None
